@@ -15,3 +15,8 @@ def models():
 
 def build_h_rtl():
     return common.build_rtl_harness("h_rtl", "h_rtl.cpp", models(), extra_srcs=["repo:hex.cpp"])
+
+
+def build_h_tb():
+    m = common.build_vl("Vhex_pkg", SV, ["--public-flat-rw", "--trace"])
+    return common.build_rtl_harness("h_tb", "h_tb.cpp", [m], extra_srcs=["repo:hex.cpp", "/usr/share/verilator/include/verilated_vcd_c.cpp"])
